@@ -366,7 +366,7 @@ fn check_shutdown(rt: &tokio::runtime::Runtime, s: &ShutdownScenario, st: &mut S
 }
 
 pub fn run(ctx: &mut Ctx) {
-    ctx.rule = "scenarios = task mode x 1-8 connections in generated states at the moment close() is called (a quarter of the scenarios drop the server instead and observe the end of shutdown through a wait_for_shutdown() future) (handler entered and waiting with the client staying, over HTTP/1.1 or HTTP/2, plain or upload, optionally having dropped its RequestContext; handler entered and client already gone, FIN or RST; a 4 MiB response half read; idle keep-alive; half-sent request that is later finished or abandoned) x 1-3 wait_for_shutdown() futures taken beforehand x handler release delays of 0-120 ms after close() was called x 1-4 server workers. Phase long_running_detached_handler: a detached handler whose client has left is released 11.5 s (thorough: up to 33 s) after shutdown was requested. Oracle over the event log: stayers read complete correct responses; Completed(id) of every in-flight handler and every detached handler precedes CloseReturned and the release of every wait_for_shutdown() future; connect() is refused afterwards; close() and all waiters agree. non-trivial = >= 2 in-flight handlers at close, or a detached handler outliving its client; distinct by scenario".into();
+    ctx.rule = "scenarios = task mode x 1-8 connections in generated states at the moment close() is called (a quarter of the scenarios drop the server instead and observe the end of shutdown through a wait_for_shutdown() future) (handler entered and waiting with the client staying, over HTTP/1.1 or HTTP/2, plain or upload, optionally having dropped its RequestContext; handler entered and client already gone, FIN or RST; a 4 MiB response half read; idle keep-alive; half-sent request that is later finished or abandoned) x 1-3 wait_for_shutdown() futures taken beforehand x handler release delays of 0-120 ms after close() was called x 1-4 server workers. Phase long_running_detached_handler: a detached handler whose client has left is released 11.5 s (thorough: up to 21 s) after shutdown was requested. Oracle over the event log: stayers read complete correct responses; Completed(id) of every in-flight handler and every detached handler precedes CloseReturned and the release of every wait_for_shutdown() future; connect() is refused afterwards; close() and all waiters agree. non-trivial = >= 2 in-flight handlers at close, or a detached handler outliving its client; distinct by scenario".into();
     ctx.assume("liveness is only observed within a 30 s bound; a timeout there is reported as a violation of 'close-hangs' only because every handler is released by the harness within 120 ms");
     ctx.max_shrink_iters = 60;
     let rt = tokio::runtime::Builder::new_multi_thread().worker_threads(4).enable_all().build().unwrap();
@@ -375,7 +375,7 @@ pub fn run(ctx: &mut Ctx) {
     ctx.require_frac("shutdowns", "detached_leaver", "scenarios", 0.15);
     // handlers that keep running long after every connection has drained (a waiting period inside
     // shutdown, however generous, must not end before they do)
-    let holds: Vec<u32> = if ctx.tier == Tier::Quick { vec![11_500] } else { vec![11_500, 21_000, 33_000] };
+    let holds: Vec<u32> = if ctx.tier == Tier::Quick { vec![11_500] } else { vec![11_500, 16_000, 21_000] };
     let cases: Vec<ShutdownScenario> = holds
         .into_iter()
         .flat_map(|h| {
